@@ -164,6 +164,19 @@ func isLoopBackAddr(addr net.Addr) bool {
 	return false
 }
 
+// isLoopBackPeer reports whether the grpc peer of ctx connects from a loopback address
+func isLoopBackPeer(ctx context.Context) bool {
+	p, ok := pr.FromContext(ctx)
+	if !ok || p.Addr == nil {
+		return false
+	}
+	ip, _, err := net.SplitHostPort(p.Addr.String())
+	if err != nil {
+		return false
+	}
+	return net.ParseIP(ip).IsLoopback()
+}
+
 func auth(ctx context.Context, info *grpc.UnaryServerInfo) error {
 	getctx, ok := pr.FromContext(ctx)
 	if ok {
